@@ -501,22 +501,33 @@ def rpcOp (k : Kind) (r : Rpc) (defs : Bool) (tx : Bool) (ws : List String) (imp
         let v ← digits? v kIntMax 10
         let tags := ["jump"] ++ (if v < r.idAlloc then ["jump-back"] else []) ++ (if v + 2 ≥ kIntMax then ["jump-intmax"] else [])
         some (finish (r.jump v) [] tags)
+    | ["rspb", ids, code] => do
+        -- one frame carrying a batch array of responses (duplicate ids allowed): dispatched one by one, in order
+        let code ← int32? code
+        let ids ← (ids.splitOn ",").mapM jsonInt?
+        if ids.isEmpty || ids.length > 8 then none else
+        let (r', evs) := ids.foldl (fun (acc : Rpc × List REv) id => let x := acc.1.respond id code; (x.1, acc.2 ++ x.2)) (r, [])
+        let dupl := ids.any (fun i => (ids.filter (· == i)).length ≥ 2)
+        some (finish r' evs (opTags "" r none r' evs ++ ["rsp-batch"] ++ (if dupl then ["rsp-batch-dup-id"] else [])))
     | ["tx", "on"] => some (finish r [] ["tx-on"] true)
     | ["tx", "off"] => some (finish r [] ["tx-off"] false)
     | ["reqsync", c, m, code] => do
         let c ← digits? c 99; let m ← digits? m 7; let code ← int32? code
         -- the transport answers the request from inside the send callback: the response arrives below request()
+        -- (its id is the one being allocated by that very call)
         let (r1, e1) := step r (.request c m)
         let answered := tx && e1.any isSent
-        let (r2, e2) := if answered then r1.respond ((r.idAlloc + 1 : Nat) : Int) code else (r1, [])
+        let (r2, e2) := if answered then r1.respond (r1.idAlloc : Int) code else (r1, [])
         some (finish r2 (e1 ++ e2) (opTags "" r (some (.request c m)) r2 (e1 ++ e2) ++ (if answered then ["reqsync"] else [])))
     | _ => do
         let op ← peerOp? ws
         let (r', evs) := step r op
-        let idmax := match op with | .request .. => !r.dead && r.idAlloc ≥ kIntMax | _ => false
+        let sentReq := match op with | .request .. => evs.any isSent | _ => false
+        let wrapped := sentReq && r'.idAlloc ≤ r.idAlloc
+        let skipped := sentReq && r'.idAlloc != (if r.idAlloc < kIntMax then r.idAlloc + 1 else 1)
         let wide := evs.any (fun e => match e with | .sent id _ => id + 2 ≥ kIntMax | _ => false)
-        some (finish r' evs (opTags "" r (some op) r' evs ++ (if idmax then ["req-at-intmax-refused"] else []) ++
-          (if wide then ["id-near-intmax"] else [])))
+        some (finish r' evs (opTags "" r (some op) r' evs ++ (if wrapped then ["id-wrapped"] else []) ++
+          (if skipped then ["id-skip-pending"] else []) ++ (if wide then ["id-near-intmax"] else [])))
 
 def queue? : String → Option Bool
   | "ab" => some true
@@ -586,11 +597,20 @@ def processCase (ops impl : List String) : List String :=
                   some (if iw == ["P", "rpc"] then Except.ok (CaseSt.rpc kd (Rpc.init n) true true, ["rpc-open"] ++ (if n > 8 then ["rpc-many-slots"] else []))
                         else Except.error s!"expected 'P rpc' got {il}")
                 else none
-              (match k, n.toNat? with
-               | "H", some n => mk (.H 0x3e5a) n
-               | "R", some n => mk .R n
-               | "P", some n => mk .P n
-               | _, _ => none)
+              let refused (t : Int) : Option (Except String (CaseSt × List String)) :=
+                -- initialize(proto, timeout_sec < 1) returns false: the object stays uninitialised, the case stays fresh
+                if -512 ≤ t ∧ (Rpc.initialize t).isNone then
+                  some (if iw == ["P", "rpc", "init=0"] then Except.ok (CaseSt.fresh, ["rpc-init-refused"])
+                        else Except.error s!"expected 'P rpc init=0' got {il}")
+                else none
+              (match k, n.toNat?, intOfString? n with
+               | "H", some n, _ => if n = 0 then refused 0 else mk (.H 0x3e5a) n
+               | "R", some n, _ => if n = 0 then refused 0 else mk .R n
+               | "P", some n, _ => if n = 0 then refused 0 else mk .P n
+               | "H", none, some t => refused t
+               | "R", none, some t => refused t
+               | "P", none, some t => refused t
+               | _, _, _ => none)
           | .fresh, ["world", _k, nc, ns] =>
               (match nc.toNat?, ns.toNat? with
                | some nc, some ns =>
